@@ -283,30 +283,42 @@ def make_traced(pt, holder):
     return TracedRule, CustomRule, TracedSensor, TracedPWMControl
 
 
-def make_control(b, rules, holder):
+def _make_rule(b, r, idx, holder):
     from gearpy.motor_control.rules import ConstantPWM, ReachAngularPosition, StartLimitCurrent, StartProportionalToAngularPosition
     from gearpy.sensors import AbsoluteRotaryEncoder, Tachometer, Timer
     pt, q, objs = b['pt'], b['q'], b['objs']
     TracedRule, CustomRule, TracedSensor, TracedPWMControl = make_traced(pt, holder)
-    ctl = TracedPWMControl(pt)
+    t = r['type']
+    if t == 'const':
+        v = Fraction(r['val'])
+        inner = ConstantPWM(Timer(q('Time', r['start']), q('TimeInterval', r['dur'])), pt, int(v) if v.denominator == 1 else float(v))
+    elif t == 'reach':
+        inner = ReachAngularPosition(AbsoluteRotaryEncoder(objs[r['el']]), pt, q('AngularPosition', r['target']), q('Angle', r['brake']))
+    elif t == 'startprop':
+        inner = StartProportionalToAngularPosition(AbsoluteRotaryEncoder(objs[r['el']]), pt, q('AngularPosition', r['target']),
+                                                   float(Fraction(r['mult'])), None if r.get('pmin') is None else float(Fraction(r['pmin'])))
+    elif t == 'startlim':
+        inner = StartLimitCurrent(AbsoluteRotaryEncoder(objs[r['el']]), Tachometer(objs[r['el_tach']]), objs[0],
+                                  q('AngularPosition', r['target']), q('Current', r['ilim']))
+    elif t == 'custom':
+        inner = CustomRule([None if x is None else (int(Fraction(x)) if Fraction(x).denominator == 1 else float(Fraction(x))) for x in r['script']])
+    else:
+        raise Machinery('rule ' + t)
+    return TracedRule(inner, idx)
+
+
+def make_control(b, rules, holder, extend=None, n_existing=0):
+    """a traced PWMControl with `rules`; or, with extend = an existing control object, the SAME object with the rules beyond the first
+    n_existing added to it (a control that grows between runs)"""
+    pt = b['pt']
+    if extend is None:
+        _, _, _, TracedPWMControl = make_traced(pt, holder)
+        ctl = TracedPWMControl(pt)
+    else:
+        ctl = extend
     for idx, r in enumerate(rules, 1):
-        t = r['type']
-        if t == 'const':
-            v = Fraction(r['val'])
-            inner = ConstantPWM(Timer(q('Time', r['start']), q('TimeInterval', r['dur'])), pt, int(v) if v.denominator == 1 else float(v))
-        elif t == 'reach':
-            inner = ReachAngularPosition(AbsoluteRotaryEncoder(objs[r['el']]), pt, q('AngularPosition', r['target']), q('Angle', r['brake']))
-        elif t == 'startprop':
-            inner = StartProportionalToAngularPosition(AbsoluteRotaryEncoder(objs[r['el']]), pt, q('AngularPosition', r['target']),
-                                                       float(Fraction(r['mult'])), None if r.get('pmin') is None else float(Fraction(r['pmin'])))
-        elif t == 'startlim':
-            inner = StartLimitCurrent(AbsoluteRotaryEncoder(objs[r['el']]), Tachometer(objs[r['el_tach']]), objs[0],
-                                      q('AngularPosition', r['target']), q('Current', r['ilim']))
-        elif t == 'custom':
-            inner = CustomRule([None if x is None else (int(Fraction(x)) if Fraction(x).denominator == 1 else float(Fraction(x))) for x in r['script']])
-        else:
-            raise Machinery('rule ' + t)
-        ctl.add_rule(TracedRule(inner, idx))
+        if idx > n_existing:
+            ctl.add_rule(_make_rule(b, r, idx, holder))
     return ctl
 
 
@@ -410,7 +422,11 @@ def execute(tid, inst, rnd=None):
             ctl = None
             if op.get('ctrl') is not None:
                 if op['ctrl'] not in ctl_cache:
-                    ctl_cache[op['ctrl']] = make_control(b, inst['ctrls'][op['ctrl']], holder)
+                    base = inst.get('ctrl_extends', {}).get(op['ctrl'])
+                    if base is not None and base in ctl_cache:
+                        ctl_cache[op['ctrl']] = make_control(b, inst['ctrls'][op['ctrl']], holder, extend=ctl_cache[base], n_existing=len(inst['ctrls'][base]))
+                    else:
+                        ctl_cache[op['ctrl']] = make_control(b, inst['ctrls'][op['ctrl']], holder)
                 ctl = ctl_cache[op['ctrl']]
             stop, thr = None, N
             if op.get('stop') is not None:
